@@ -484,6 +484,12 @@ func (x *Exec) byContract(st *State, fr *Frame, n ast.Node, pc *ProcContract, os
 			post.maps["Alloc"] = tStore(am, r, tTrue)
 		}
 	}
+	if pc.Opts["observes_cancel"] != "" {
+		if post == st {
+			post = st.clone()
+		}
+		post.ghosts["obsCancel"] = tTrue
+	}
 	env2 := *env
 	env2.st = post
 	env2.old = st
@@ -525,6 +531,12 @@ func (x *Exec) havocModifies(post *State, env *CEnv, pc *ProcContract, n ast.Nod
 			penv.st = post
 			switch e := e.(type) {
 			case CIdent:
+				switch e.Name {
+				case "sawCancel", "waited", "closerSpawned":
+					x.ghostBool(post, e.Name)
+				case "sleeps", "added", "spawned", "doneCalls":
+					x.ghostInt(post, e.Name)
+				}
 				if g, ok := post.ghosts[e.Name]; ok {
 					post.ghosts[e.Name] = x.d.fresh(e.Name, g.Sort)
 					return
@@ -595,6 +607,9 @@ func (x *Exec) mapEntry(env *CEnv, e CExpr) (name string, key Term, elem string,
 				return "H_cell:" + elem, key, elem, true
 			}
 			return
+		}
+		if cn, ce2, ok2 := x.chanStateMap(env.st, e.Fn, key); ok2 {
+			return cn, key, ce2, true
 		}
 		name, elem, ok = x.ifaceStateMap(env, e.Fn, key)
 		return
@@ -969,8 +984,10 @@ func (x *Exec) ifaceCall(st *State, fr *Frame, ce *ast.CallExpr, in *types.Named
 	csig, _ := x.info.TypeOf(ce.Fun).(*types.Signature)
 	if pc.Pure && x.statelessIface(in) {
 		if ms, ok := x.methodUF(in, f.Name()); ok && len(args) == len(ms.args) {
-			r := tApp(ms.ret, ms.fname, append([]Term{recv}, args...)...)
-			x.resultOverride = []Term{r}
+			x.resultOverride = nil
+			for k2, fn := range ms.fnames {
+				x.resultOverride = append(x.resultOverride, tApp(ms.rets[k2], fn, append([]Term{recv}, args...)...))
+			}
 		}
 	}
 	x.byContract(st, fr, ce, pc, osig, csig, recv, args, sub, owner.Obj().Pkg().Path(), k)
@@ -1353,6 +1370,16 @@ func (x *Exec) fnParamContract(fun ast.Expr) *ProcContract {
 		name = f.Name
 	case *ast.SelectorExpr:
 		name = f.Sel.Name
+	case *ast.CallExpr:
+		// conversion of a named value to its function type, then applied: T(f)(args)
+		if tv, ok := x.info.Types[ast.Unparen(f.Fun)]; ok && tv.IsType() && len(f.Args) == 1 {
+			if id, ok := ast.Unparen(f.Args[0]).(*ast.Ident); ok {
+				name = id.Name
+			}
+		}
+		if name == "" {
+			return nil
+		}
 	default:
 		return nil
 	}
@@ -1417,6 +1444,13 @@ func (x *Exec) convertTo(st *State, v Term, to types.Type, n ast.Node) Term {
 		if v.Sort == x.sortOf(to) {
 			v.Ty = to
 			return v
+		}
+		if v.Sort == "Err" && x.sortOf(to) == "Ref" {
+			// an error value seen as any: an opaque reference (nil for nil)
+			x.d.fun("err_as_ref", []string{"Err"}, "Ref")
+			r := tApp("Ref", "err_as_ref", v)
+			r.Ty = to
+			return r
 		}
 	}
 	ts := x.sortOf(to)
